@@ -192,7 +192,7 @@ def u2_names(sc):
         return {1: "samedecl" + s, 2: "samedecl" + s, "m1": "_moda", "m2": "_modb"}
     if v == "suffix":
         return {1: "public_tail" + s, 2: "_tail" + s, "m1": "_moda", "m2": "_modb"}
-    if v in ("privtwin", "privtwindeep"):
+    if v in ("privtwin", "privtwindeep", "privtwinlate"):
         return {1: "declone" + s, 2: "decltwo" + s, "m1": "modsame" + s, "m2": "modsame" + s}
     if v == "stdlibname":
         return {1: "declone" + s, 2: "decltwo" + s, "m1": "moda", "m2": "logging"}
@@ -235,8 +235,10 @@ def u2_files(sc, root: str) -> dict:
         files[m1] = f"from typing import NewType\n\nIdent{s} = NewType(\"Ident{s}\", int)\n\n\n" + files[m1]
         files[m2] = (f"from {root}.{sid}.sub.deep.{nm['m1']} import Ident{s}\n\n\n" + files[m2]
                      + f"\n\ndef uses_ident{s}(u: Ident{s}) -> Ident{s}:\n    ...\n")
-    if sc.get("variant") in ("privtwin", "privtwindeep"):      # module 2 moves into a private package
-        hid = f"{sid}/_hid" if sc["variant"] == "privtwin" else f"{sid}/sub/deep/_hid"
+    if sc.get("variant") in ("privtwin", "privtwindeep", "privtwinlate"):      # module 2 moves into a private package
+        hid = {"privtwin": f"{sid}/_hid", "privtwindeep": f"{sid}/sub/deep/_hid", "privtwinlate": f"{sid}/sub/zz/_hid"}[sc["variant"]]
+        if sc["variant"] == "privtwinlate":
+            files[f"{sid}/sub/zz/__init__.py"] = ""
         del files[f"{sid}/sub/{nm['m2']}.py"]
         files[f"{sid}/sub/fillb{s}.py"] = "def fillb" + s + "() -> int:\n    ...\n"
         files[f"{hid}/__init__.py"] = ""
@@ -321,7 +323,7 @@ def u2_observe(sc, stubs: Stubs, rootname: str, idx: dict | None = None) -> dict
                                   "privmembers": [m.pyname.replace(mark, "") for m in d.members if m.pyname.startswith("_") and not m.pyname.startswith("__")]})
     jp = {1: "absent", 2: "absent"}
     if idx is not None:
-        for t, path in ((1, ["sub", "deep", nm["m1"]]), (2, [*({"privtwin": ["_hid"], "privtwindeep": ["sub", "deep", "_hid"]}.get(sc.get("variant"), ["sub"])), nm["m2"]])):
+        for t, path in ((1, ["sub", "deep", nm["m1"]]), (2, [*({"privtwin": ["_hid"], "privtwindeep": ["sub", "deep", "_hid"], "privtwinlate": ["sub", "zz", "_hid"]}.get(sc.get("variant"), ["sub"])), nm["m2"]])):
             if sc.get("variant") == "pkgnamed":
                 path = ["sub", nm[1], nm["m1"]] if t == 1 else ["sub", nm[1]]
             if sc.get("variant") == "privpkginit" and t == 1:
